@@ -66,10 +66,19 @@ class P(Prop):
                             d["name"] = rng.choice(src)["name"]
                             c["same_name_across_categories"] = True
                             break
-            if kind == "electric" and rng.random() < 0.35:
+            if kind == "electric" and rng.random() < 0.5:
                 # two gensets of the same rating on one switchboard (they share the load equally, so their outputs coincide)
                 # that burn different fuels / have different curves
                 gs = [d for d in c["plant"]["comps"] if d["cls"] in ("genset", "genset_rect")]
+                if gs and not any(b_ is not a_ and b_["swb"] == a_["swb"] for a_ in gs for b_ in gs):
+                    import copy as _copy
+                    a_ = gs[0]
+                    j_ = c["plant"]["comps"].index(a_)
+                    twin = _copy.deepcopy(a_)
+                    twin["name"] = a_["name"] + "_twin"
+                    c["plant"]["comps"].append(twin)
+                    c["inp"]["comps"].append(_copy.deepcopy(c["inp"]["comps"][j_]))
+                    gs.append(twin)
                 for a_ in gs:
                     tw = [b_ for b_ in gs if b_ is not a_ and b_["swb"] == a_["swb"]]
                     if tw:
